@@ -10,10 +10,10 @@ import (
 )
 
 func UnmarshalBatchedTokenResponses(data []byte) ([][]byte, error) {
-	s := cryptobyte.String(data)
-
 	l, offset := quicwire.ConsumeVarint(data)
-	s.Skip(offset)
+	if offset < 0 || l > uint64(len(data)-offset) {
+		return nil, fmt.Errorf("invalid Token encoding")
+	}
 
 	token_responses_data := data[offset:(offset + int(l))]
 
